@@ -192,6 +192,73 @@ PINNED = [
     ("dyn_header", "multiboot2-common/src/tag.rs", r"trait\s+MaybeDynSized", "header"),
 ]
 
+# whole impl blocks as TABLES: every function of the block (source order) with its translated body and the inputs it
+# depends on. Used for the many one-line forwarders / accessors (`self.get_tag::<T>()`, `self.header.typ()`, ...): a theorem
+# compares the whole table with the expected one, so a forwarder that names another tag type / field, and any function ADDED
+# to or REMOVED from the block, breaks it. Functions already covered by REQUESTS / PINNED appear by name only.
+IMPL_TABLES = [
+    ("tbl_mbi", "multiboot2/src/boot_information.rs", r"impl<'a>\s+BootInformation<'a>"),
+    ("tbl_bih", "multiboot2/src/boot_information.rs", r"impl\s+BootInformationHeader\b"),
+    ("tbl_tag_header", "multiboot2/src/tag.rs", r"impl\s+TagHeader\b"),
+    ("tbl_hdr", "multiboot2-header/src/header.rs", r"impl<'a>\s+Multiboot2Header<'a>"),
+    ("tbl_hb", "multiboot2-header/src/header.rs", r"impl\s+Multiboot2BasicHeader\b"),
+    ("tbl_hth", "multiboot2-header/src/tags.rs", r"impl\s+HeaderTagHeader\b"),
+    ("tbl_htt", "multiboot2-header/src/tags.rs", r"impl\s+HeaderTagType\b"),
+    ("tbl_h_address", "multiboot2-header/src/address.rs", r"impl\s+AddressHeaderTag\b"),
+    ("tbl_h_console", "multiboot2-header/src/console.rs", r"impl\s+ConsoleHeaderTag\b"),
+    ("tbl_h_end", "multiboot2-header/src/end.rs", r"impl\s+EndHeaderTag\b"),
+    ("tbl_h_entry", "multiboot2-header/src/entry_address.rs", r"impl\s+EntryAddressHeaderTag\b"),
+    ("tbl_h_efi32", "multiboot2-header/src/entry_efi_32.rs", r"impl\s+EntryEfi32HeaderTag\b"),
+    ("tbl_h_efi64", "multiboot2-header/src/entry_efi_64.rs", r"impl\s+EntryEfi64HeaderTag\b"),
+    ("tbl_h_fb", "multiboot2-header/src/framebuffer.rs", r"impl\s+FramebufferHeaderTag\b"),
+    ("tbl_h_modalign", "multiboot2-header/src/module_align.rs", r"impl\s+ModuleAlignHeaderTag\b"),
+    ("tbl_h_efibs", "multiboot2-header/src/uefi_bs.rs", r"impl\s+EfiBootServiceHeaderTag\b"),
+    ("tbl_h_reloc", "multiboot2-header/src/relocatable.rs", r"impl\s+RelocatableHeaderTag\b"),
+    ("tbl_h_inforeq", "multiboot2-header/src/information_request.rs", r"impl\s+InformationRequestHeaderTag\b"),
+    ("tbl_elf_section", "multiboot2/src/elf_sections.rs", r"impl\s+ElfSection<'_>"),
+    ("tbl_elf32", "multiboot2/src/elf_sections.rs", r"ElfSectionInner\s+for\s+ElfSectionInner32"),
+    ("tbl_elf64", "multiboot2/src/elf_sections.rs", r"ElfSectionInner\s+for\s+ElfSectionInner64"),
+    ("tbl_elf_iter", "multiboot2/src/elf_sections.rs", r"\bIterator\s+for\s+ElfSectionIter"),
+    ("tbl_elf_iter_len", "multiboot2/src/elf_sections.rs", r"ExactSizeIterator\s+for\s+ElfSectionIter"),
+    ("tbl_elf_tag", "multiboot2/src/elf_sections.rs", r"impl\s+ElfSectionsTag\b"),
+    ("tbl_efi_iter", "multiboot2/src/memory_map.rs", r"\bIterator\s+for\s+EFIMemoryAreaIter"),
+    ("tbl_efi_tag", "multiboot2/src/memory_map.rs", r"impl\s+EFIMemoryMapTag\b"),
+    ("tbl_mmap_tag", "multiboot2/src/memory_map.rs", r"impl\s+MemoryMapTag\b"),
+    ("tbl_smbios", "multiboot2/src/smbios.rs", r"impl\s+SmbiosTag\b"),
+    ("tbl_loader", "multiboot2/src/boot_loader_name.rs", r"impl\s+BootLoaderNameTag\b"),
+    ("tbl_rsdp1", "multiboot2/src/rsdp.rs", r"impl\s+RsdpV1Tag\b"),
+    ("tbl_rsdp2", "multiboot2/src/rsdp.rs", r"impl\s+RsdpV2Tag\b"),
+    ("tbl_fb_tag", "multiboot2/src/framebuffer.rs", r"impl\s+FramebufferTag\b"),
+    ("tbl_fb_type", "multiboot2/src/framebuffer.rs", r"impl\s+FramebufferType<'_>"),
+    ("tbl_fb_eq", "multiboot2/src/framebuffer.rs", r"PartialEq\s+for\s+FramebufferTag"),
+    ("tbl_tag_type_id", "multiboot2/src/tag_type.rs", r"impl\s+TagTypeId\b"),
+    ("tbl_id_from_u32", "multiboot2/src/tag_type.rs", r"From<u32>\s+for\s+TagTypeId"),
+    ("tbl_u32_from_id", "multiboot2/src/tag_type.rs", r"From<TagTypeId>\s+for\s+u32"),
+    ("tbl_type_from_id", "multiboot2/src/tag_type.rs", r"From<TagTypeId>\s+for\s+TagType\b"),
+    ("tbl_id_from_type", "multiboot2/src/tag_type.rs", r"From<TagType>\s+for\s+TagTypeId"),
+    ("tbl_type_eq_id", "multiboot2/src/tag_type.rs", r"PartialEq<TagTypeId>\s+for\s+TagType\b"),
+    ("tbl_id_eq_type", "multiboot2/src/tag_type.rs", r"PartialEq<TagType>\s+for\s+TagTypeId"),
+    ("tbl_id_eq_u32", "multiboot2/src/tag_type.rs", r"PartialEq<u32>\s+for\s+TagTypeId"),
+    ("tbl_u32_eq_id", "multiboot2/src/tag_type.rs", r"PartialEq<TagTypeId>\s+for\s+u32"),
+    ("tbl_type_eq_u32", "multiboot2/src/tag_type.rs", r"PartialEq<u32>\s+for\s+TagType\b"),
+    ("tbl_u32_eq_type", "multiboot2/src/tag_type.rs", r"PartialEq<TagType>\s+for\s+u32"),
+    ("tbl_elf_inner_trait", "multiboot2/src/elf_sections.rs", r"trait\s+ElfSectionInner\b"),
+    ("tbl_header_trait", "multiboot2-common/src/lib.rs", r"trait\s+Header\b"),
+    ("tbl_mid_from_u32", "multiboot2/src/memory_map.rs", r"From<u32>\s+for\s+MemoryAreaTypeId"),
+    ("tbl_u32_from_mid", "multiboot2/src/memory_map.rs", r"From<MemoryAreaTypeId>\s+for\s+u32"),
+    ("tbl_mid_eq_mtype", "multiboot2/src/memory_map.rs", r"PartialEq<MemoryAreaType>\s+for\s+MemoryAreaTypeId"),
+    ("tbl_mtype_eq_mid", "multiboot2/src/memory_map.rs", r"PartialEq<MemoryAreaTypeId>\s+for\s+MemoryAreaType\b"),
+    ("tbl_memory_area", "multiboot2/src/memory_map.rs", r"impl\s+MemoryArea\b"),
+    ("tbl_module", "multiboot2/src/module.rs", r"impl\s+ModuleTag\b"),
+    ("tbl_fbid_from_type", "multiboot2/src/framebuffer.rs", r"From<FramebufferType<'_>>\s+for\s+FramebufferTypeId"),
+    ("tbl_bytes_ref_deref", "multiboot2-common/src/bytes_ref.rs", r"Deref\s+for\s+BytesRef"),
+    ("tbl_efibs", "multiboot2/src/efi.rs", r"impl\s+EFIBootServicesNotExitedTag\b"),
+    ("tbl_fb_reader", "multiboot2/src/framebuffer.rs", r"impl<'a>\s+Reader<'a>"),
+    ("tbl_module_free", "multiboot2/src/module.rs", r"^$"),
+    ("tbl_maybe_dyn_sized", "multiboot2-common/src/tag.rs", r"trait\s+MaybeDynSized\b"),
+    ("tbl_dyn", "multiboot2-common/src/lib.rs", r"impl<H:\s*Header>\s+DynSizedStructure<H>"),
+]
+
 INT_TYS = {"u8": ".u8", "u16": ".u16", "u32": ".u32", "u64": ".u64", "usize": ".usize"}
 
 
@@ -1483,6 +1550,58 @@ class Context:
                             return None
         return None
 
+    def list_fns(self, path, impl_pat):
+        """names of the functions defined at the top level of the matching impl block(s), in source order"""
+        txt = self.all_text.get(path)
+        if txt is None:
+            raise Unsupported("no file " + path)
+        t = re.search(r"#\[cfg\((?:all\()?test[^\]]*\]\s*(?:pub\s+)?mod\s+\w+\s*\{", txt)
+        txt = txt[:t.start()] if t else txt
+        names = []
+        found = False
+        if impl_pat == "^$":
+            depth = 0
+            top = ""
+            for ch in txt:
+                if ch == "{":
+                    depth += 1
+                elif ch == "}":
+                    depth -= 1
+                elif depth == 0:
+                    top += ch
+            for fm in re.finditer(r"\bfn\s+(\w+)", top):
+                rest = top[fm.end():]
+                nxt = re.search(r"\bfn\s+\w+", rest)
+                sig = rest[:nxt.start()] if nxt else rest
+                rm = re.search(r"->\s*([^;]*?)\s*(?:where\b|#\[|pub\b|const\b|unsafe\b|impl\b|struct\b|$)", sig, re.S)
+                names.append(("", fm.group(1), re.sub(r"\s+", "", rm.group(1)) if rm else "()"))
+            return names
+        for m in re.finditer(r"(?:impl|trait)\b[^{;]*\{", txt):
+            if re.search(impl_pat, m.group(0)):
+                found = True
+                end = gen_source.matching(txt, m.end() - 1)
+                blk = txt[m.end():end - 1]
+                depth = 0
+                top = ""
+                for ch in blk:
+                    if ch == "{":
+                        depth += 1
+                    elif ch == "}":
+                        depth -= 1
+                    elif depth == 0:
+                        top += ch
+                for fm in re.finditer(r"\bfn\s+(\w+)", top):
+                    rest = top[fm.end():]
+                    # the signature ends where the (removed) body stood: at the next `fn` item or the end of the block
+                    nxt = re.search(r"\bfn\s+\w+", rest)
+                    sig = rest[:nxt.start()] if nxt else rest
+                    rm = re.search(r"->\s*([^;]*?)\s*(?:;|where\b|#\[|pub\b|(?<!\*)const\b|unsafe\b|$)", sig, re.S)
+                    ret = re.sub(r"\s+", "", rm.group(1)) if rm else "()"
+                    names.append((m.group(0), fm.group(1), ret))
+        if not found:
+            raise Unsupported("no impl block matching " + impl_pat)
+        return names
+
     def find_fn(self, path, impl_pat, fname):
         """-> (self type name, parameter names, body text)"""
         txt = self.all_text.get(path)
@@ -1755,13 +1874,121 @@ def main(out_path, report_path=None):
             lines.append("def %s : Option E := none" % nm)
             report["not_translated"][nm] = "%s: %s" % (type(ex).__name__, ex)
     lines.append("")
+    # whole impl blocks as tables (see IMPL_TABLES)
+    cov_reqs = [(r[1], r[2], r[3]) for r in REQUESTS] + [(r[1], r[2], r[3]) for r in PINNED]
+
+    def is_covered(path, head, fn):
+        return any(p == path and f == fn and (not ip or re.search(ip, head)) for (p, ip, f) in cov_reqs)
+    report["tables"] = {}
+    for (tname, path, impl_pat) in IMPL_TABLES:
+        try:
+            ctx.crate = path.split("/")[0]
+            names = ctx.list_fns(path, impl_pat)
+            rows = []
+            for (head, fn, ret) in names:
+                fn_ret = fn + "->" + ret
+                if is_covered(path, head, fn):
+                    rows.append('(%s, "covered", none, [], [])' % json.dumps(fn_ret))
+                    continue
+                try:
+                    ir, free, mutated, aliases = translate(ctx, (tname + "." + fn, path, "" if impl_pat == "^$" else impl_pat, fn, []), registry)
+                    lw = translate.last
+                    if lw.loops or lw.effects or mutated:
+                        raise Unsupported("loops / effects / state")
+                    rows.append('(%s, "ir", some %s, [%s], [%s])' % (json.dumps(fn_ret), ir, ", ".join(json.dumps(f) for f in free),
+                                                                     ", ".join(json.dumps("let %s=%s" % (a, b)) for a, b in aliases)))
+                except (Unsupported, RecursionError, AssertionError, IndexError, KeyError, ValueError, AttributeError) as ex:
+                    try:
+                        _s, _p, body = ctx.find_fn(path, "" if impl_pat == "^$" else impl_pat, fn)
+                    except Unsupported:       # a declaration without a body (required trait method)
+                        rows.append('(%s, "decl", none, [], [])' % json.dumps(fn_ret))
+                        continue
+                    body = re.sub(r'"(?:[^"\\\\]|\\\\.)*"', '"..."', body)
+                    rows.append('(%s, "text", none, [%s], [])' % (json.dumps(fn_ret), json.dumps(untok(tokenize(body)))))
+            lines.append("def %s : Option (List (String × String × Option E × List String × List String)) := some [\n  %s]" % (tname, ",\n  ".join(rows)))
+            report["tables"][tname] = len(rows)
+        except Exception as ex:      # noqa: BLE001
+            lines.append("def %s : Option (List (String × String × Option E × List String × List String)) := none" % tname)
+            report["not_translated"][tname] = "%s: %s" % (type(ex).__name__, ex)
+    lines.append("")
+    # bitflags! blocks: (struct, representation, [(constant, value)]) - `from_bits_truncate` keeps exactly these bits
+    try:
+        flags = []
+        for path in sorted(ctx.all_text):
+            txt = ctx.all_text[path]
+            for m in re.finditer(r"bitflags!\s*\{", txt):
+                end = gen_source.matching(txt, m.end() - 1)
+                blk = txt[m.end():end - 1]
+                sm = re.search(r"struct\s+(\w+)\s*:\s*(\w+)\s*\{", blk)
+                if not sm:
+                    raise Unsupported("bitflags block without struct in " + path)
+                consts = [(c, int(v.replace("_", ""), 0)) for c, v in re.findall(r"const\s+(\w+)\s*=\s*(0x[0-9a-fA-F_]+|0b[01_]+|\d[\d_]*)\s*;", blk)]
+                n_all = len(re.findall(r"\bconst\s+\w+\s*=", blk))
+                if n_all != len(consts):
+                    raise Unsupported("bitflags constant that is not a literal in " + path)
+                flags.append((sm.group(1), sm.group(2), consts))
+        flags.sort()
+        lines.append("def bitflags : Option (List (String × String × List (String × Nat))) := some [" + ", ".join(
+            "(%s, %s, [%s])" % (json.dumps(a), json.dumps(b), ", ".join("(%s, %d)" % (json.dumps(c), v) for c, v in cs)) for a, b, cs in flags) + "]")
+        report["bitflags"] = len(flags)
+    except Exception as ex:      # noqa: BLE001
+        lines.append("def bitflags : Option (List (String × String × List (String × Nat))) := none")
+        report["not_translated"]["bitflags"] = repr(ex)
+    lines.append("")
+    # INVENTORY: every non-test function of the three crates and the way it is tied to the model (reported in the evidence)
+    try:
+        tabled = set()
+        for (tname, path, impl_pat) in IMPL_TABLES:
+            try:
+                for (h, fn, _r) in ctx.list_fns(path, impl_pat):
+                    tabled.add((path, h, fn))
+            except Unsupported:
+                pass
+        acc = set()
+        for _st, (f, accs) in gen_source.REQUESTS.items():
+            for a in accs:
+                acc.add((f, a))
+        inv = {"translated": 0, "pinned-text": 0, "impl-table": 0, "accessor-layout": 0, "builder-translator": 0, "method-set": 0,
+               "formatting/error-traits (not tied)": 0, "test-utilities (not tied)": 0, "not tied": []}
+        for path in sorted(ctx.all_text):
+            txt = ctx.all_text[path]
+            t = re.search(r"#\[cfg\((?:all\()?test[^\]]*\]\s*(?:pub\s+)?mod\s+\w+\s*\{", txt)
+            txt = txt[:t.start()] if t else txt
+            heads = [(m.start(), gen_source.matching(txt, m.end() - 1), m.group(0)) for m in re.finditer(r"(?:impl|trait)\b[^{;]*\{", txt)]
+            for fm in re.finditer(r"\bfn\s+(\w+)\s*(?=[<(])", txt):
+                fn = fm.group(1)
+                head = ""
+                for (a, b, h) in heads:
+                    if a < fm.start() < b:
+                        head = h
+                if any(r[1] == path and r[3] == fn and (not r[2] or re.search(r[2], head)) for r in REQUESTS):
+                    inv["translated"] += 1
+                elif any(r[1] == path and r[3] == fn and (not r[2] or re.search(r[2], head)) for r in PINNED):
+                    inv["pinned-text"] += 1
+                elif (path, head, fn) in tabled:
+                    inv["impl-table"] += 1
+                elif (path, fn) in acc:
+                    inv["accessor-layout"] += 1
+                elif path.endswith("builder.rs"):
+                    inv["builder-translator"] += 1
+                elif re.search(r"\b(MaybeDynSized|Default|Header)\b[^{]*\bfor\b", head):
+                    inv["method-set"] += 1
+                elif re.search(r"\b(Debug|Display|Error)\b[^{]*\bfor\b", head):
+                    inv["formatting/error-traits (not tied)"] += 1
+                elif path.endswith("test_utils.rs"):
+                    inv["test-utilities (not tied)"] += 1
+                else:
+                    inv["not tied"].append("%s: %s" % (path, fn))
+        report["inventory"] = inv
+    except Exception as ex:      # noqa: BLE001
+        report["inventory"] = {"error": repr(ex)}
     # the METHOD SETS of the trait impls the model depends on: an added override (`nth`, `last`, `count`, `size_hint`, a second
     # `total_size`) or a removed one changes behaviour without touching any translated body
     impls = []
     try:
         for path in sorted(ctx.all_text):
             txt = ctx.all_text[path]
-            t = re.search(r"#\[cfg\((?:all\()?test", txt)
+            t = re.search(r"#\[cfg\((?:all\()?test[^\]]*\]\s*(?:pub\s+)?mod\s+\w+\s*\{", txt)
             body_txt = txt[:t.start()] if t else txt
             for m in re.finditer(r"\bimpl\b([^{;]*?)\b(Iterator|ExactSizeIterator|DoubleEndedIterator|FusedIterator|Header|MaybeDynSized|Default|Deref)\b(?:<[^{]*?>)?\s+for\s+([A-Za-z_]\w*)[^{]*\{", body_txt):
                 end = gen_source.matching(body_txt, m.end() - 1)
